@@ -53,9 +53,9 @@ func c04(tier string) int {
 	for _, op := range []string{"S", "D", "T", "C"} {
 		items = append(items, conc.Item{Name: "crash-conc", Params: "op=" + op, MaxBound: b, MaxExecs: 2_000_000, Label: "C04/crash-conc-" + op})
 	}
-	// two writers of one key (an RC commit / a Set against an autocommit Set): once both have returned,
+	// two writers of one key (an RC commit / a Set / an RR commit, which may be refused, against an autocommit Set): once both have returned,
 	// what a reader is given is what a crash must preserve
-	for _, op := range []string{"T", "S"} {
+	for _, op := range []string{"T", "S", "R"} {
 		items = append(items, conc.Item{Name: "crash-conc", Params: "op=" + op + ",vs=S", MaxBound: b, MaxExecs: 2_000_000, Label: "C04/crash-conc-" + op + "-vs-set"})
 	}
 	// the engine fails inside the commit transaction (k-th record write): Commit reports it, nothing of the
@@ -76,7 +76,7 @@ func c04(tier string) int {
 
 func c04Texts() (string, []string) {
 	return c04Rule(
-		"every workload of the stated depth (autocommit Set/Delete, Begin/Set/Delete/Commit/Rollback at RC and RR, GC; and the autocommit alphabet of C01 with SetReader and Create through the asynchronous pipeline; keys a,b; both background policies) runs once with every persistent mutation logged (file create, each write, remove, mkdir, KV single-key commit, KV multi-key commit); for EVERY prefix of the log, and for the torn variant of every file write, the state is materialised, a new process recovers and reads: the result must be the model after the acknowledged operations or after those plus the one in flight (whole operation), every listed key readable with one complete content; a second recovery must agree; with deep=1 the recovery itself is crashed at each of its mutation points; real-process tier (family sigkill): fixed workloads run in a child process on the real Badger engine and real files, killed by SIGKILL immediately before its n-th counted mutation for every n, recovered by the parent with the real engine; crash points of concurrent executions (scenario crash-conc): an overwrite (Set, or Create + two Writes + Close) / a delete / an RC transaction's commit of a key holding an acknowledged value against a concurrent collection pass — every schedule within 2 (quick) / 3 (thorough) deviations, and for each schedule every prefix of its mutation log materialised, recovered and read: the acknowledged value or the whole value in flight, and only the latter once acknowledged; engine failures inside the commit transaction (scenario crash-kvfault: the k-th record write of a two-key commit fails, k = 1..3): Commit must return an error and the committed state stay what it was, live and after a crash at every later point",
+		"every workload of the stated depth (autocommit Set/Delete, Begin/Set/Delete/Commit/Rollback at RC and RR, GC; and the autocommit alphabet of C01 with SetReader and Create through the asynchronous pipeline; keys a,b; both background policies) runs once with every persistent mutation logged (file create, each write, remove, mkdir, KV single-key commit, KV multi-key commit); for EVERY prefix of the log, and for the torn variant of every file write, the state is materialised, a new process recovers and reads: the result must be the model after the acknowledged operations or after those plus the one in flight (whole operation), every listed key readable with one complete content; a second recovery must agree; with deep=1 the recovery itself is crashed at each of its mutation points; real-process tier (family sigkill): fixed workloads run in a child process on the real Badger engine and real files, killed by SIGKILL immediately before its n-th counted mutation for every n, recovered by the parent with the real engine; crash points of concurrent executions (scenario crash-conc): an overwrite (Set, or Create + two Writes + Close) / a delete / an RC transaction's commit of a key holding an acknowledged value against a concurrent collection pass — every schedule within 2 (quick) / 3 (thorough) deviations, and for each schedule every prefix of its mutation log materialised, recovered and read: the acknowledged value or the whole value in flight, and only the latter once acknowledged; two writers of one key (a Set, an RC commit, an RR commit against an autocommit Set): what a reader is given once both have returned is what every later crash point must preserve, and an RR commit refused with ErrTxSerialization is never brought back by a crash after it returned; engine failures inside the commit transaction (scenario crash-kvfault: the k-th record write of a two-key commit fails, k = 1..3): Commit must return an error and the committed state stay what it was, live and after a crash at every later point",
 		[]string{"process kill, not power loss: every completed file-system call and KV commit is durable, a KV transaction is atomic (Badger's own crash safety is trusted); torn file writes are modelled by a half-written chunk",
 			"in-memory Badger engine with full version history (an image takes the volume as of any past commit); bound to the real engine and real SIGKILL by the conformance tier (DESIGN.md §2.9)"})
 }
